@@ -136,6 +136,10 @@ func makeUp(r sim.Rand, path, fault int, b *world.Blob, seq int) *Up {
 		u.DeclSize = b.Size() + 1
 	case UFHash:
 		u.DeclHash = otherHash
+		if n > 0 && r.Chance(1, 3) {
+			// the one hash servers special-case: that of the empty blob
+			u.DeclHash = world.EmptySha256
+		}
 	case UFAbort:
 		u.AbortAt = r.Intn(n)
 	}
@@ -551,6 +555,12 @@ func judgeUpload(c *Ctx, cl *world.Client, cfg world.NodeCfg, u *Up, before pres
 		}
 	}
 	matches := world.HashOf(u.Payload) == u.DeclHash && int64(len(u.Payload)) == u.DeclSize && u.Fault == UFNone
+	if (u.Path == WPFetch || u.Path == WPFetchNoCL) && u.DeclHash == world.EmptySha256 {
+		// FetchBlob carries a checksum but no size: "already in the CAS" is
+		// decided by hash alone, and the empty blob is always there
+		c.S.Probe("fetch_with_checksum_of_the_empty_blob")
+		return
+	}
 	if before.any() {
 		// already present: the protocol allows an early OK; content must stay right
 		c.S.Probe("upload_to_present_digest")
